@@ -45,10 +45,11 @@ SCHEDS = {
     "alt": ({"kind": "script", "prog": {"rule": "altcol", "len": 1, "skew": True}}, 1),
     "fcfs": ({"kind": "greedy", "sort": "fcfs"}, 1),
 }
+# (station registration order, constraint insertion order, constraint-edit history the network is reached through)
 ORDERS = {
-    "N2": [(None, None), (["PS-C", "PS-A", "PS-B"], [2, 0, 3, 1])],
-    "N4": [(None, None), (["PS-B", "PS-C", "PS-A"], [1, 2, 0])],
-    "N5": [(["PS-C", "PS-B", "PS-A"], [2, 1, 0])],
+    "N2": [(None, None, None), (["PS-C", "PS-A", "PS-B"], [2, 0, 3, 1], "aux")],
+    "N4": [(None, None, "upd"), (["PS-B", "PS-C", "PS-A"], [1, 2, 0], None)],
+    "N5": [(["PS-C", "PS-B", "PS-A"], [2, 1, 0], "aux")],
 }
 
 
@@ -99,11 +100,13 @@ def close(a, b, rel=1e-9):
 
 
 def execute(item, only=None):
-    order, corder = ORDERS[item["net"]][item["oi"]]
+    order, corder, hist = ORDERS[item["net"]][item["oi"]]
     sched, k = SCHEDS[item["sk"]]
     scn = {"net": item["net"], "sessions": item["sessions"], "sched": sched, "k": k, "period": item["period"]}
     if order:
         scn["order"], scn["corder"] = order, corder
+    if hist:
+        scn["hist"] = hist
     tr = S.run_sim(scn)
     viol = []
     info = {"tr": tr, "queries": 0}
